@@ -1,6 +1,7 @@
 import AnySyncModel.Core.Wire
 import AnySyncModel.Acl.State
 import AnySyncModel.Generated.AclFacts
+import AnySyncModel.Acl.KeepBytes
 /-! line protocol for area `acl` (C04, C03)
   root <owner> <hasOptions>                 → `ok <state>`   (resets the model)
   rec  <author> <prev> <content> …          → `ok <state>` | `err <enum>`   (validating list)
@@ -96,6 +97,58 @@ def showStateNV (s : State) : String :=
   let opt := match s.opts.getLast? with | some o => toString o.2 | none => "-"
   s!"h={s.last} perms={perms} pend={pend} ninv={s.invites.length} nreq={s.requests.length} K[{showNats (sortDedup s.keys)}] cur={s.curKey} O={opt}"
 
+/-! ### byte-level partial decode (`keep`, `keepfull`) -/
+open AnySync.Acl.Keep in
+def hexVal (c : Char) : Option Nat :=
+  if '0' ≤ c ∧ c ≤ '9' then some (c.toNat - '0'.toNat)
+  else if 'a' ≤ c ∧ c ≤ 'f' then some (c.toNat - 'a'.toNat + 10)
+  else none
+
+def parseHexAux : List Char → Option (List Nat)
+  | [] => some []
+  | [_] => none
+  | a :: b :: rest => do
+    let x ← hexVal a; let y ← hexVal b; let t ← parseHexAux rest
+    pure ((16 * x + y) :: t)
+
+def parseHex (s : String) : Option (List Nat) := if s = "-" then some [] else parseHexAux s.toList
+
+def hexDigit (n : Nat) : Char := if n < 10 then Char.ofNat (n + '0'.toNat) else Char.ofNat (n - 10 + 'a'.toNat)
+
+def showHex (b : List Nat) : String :=
+  if b.isEmpty then "-" else String.ofList (b.flatMap fun x => [hexDigit (x / 16), hexDigit (x % 16)])
+
+def showErks (l : List Keep.ERK) : String :=
+  if l.isEmpty then "-" else join "," (l.map fun e => showHex e.identity ++ "/" ++ showHex e.key)
+
+def showRkc (k : Keep.RKC) : String :=
+  s!"ak={showErks k.accountKeys};md={showHex k.mdPub};em={showHex k.encMeta};old={showHex k.encOld};ik={showErks k.inviteKeys}"
+
+def showCnt : Keep.Cnt → String
+  | .rkc k => "rkc(" ++ showRkc k ++ ")"
+  | .rem ids k =>
+    let idl := if ids.isEmpty then "-" else join "," (ids.map showHex)
+    "rem(" ++ idl ++ "|" ++ (match k with | some k => showRkc k | none => "nil") ++ ")"
+  | .other => "other"
+
+def showCnts (l : List Keep.Cnt) : String := if l.isEmpty then "empty" else join " " (l.map showCnt)
+
+def keepOp (ours data : String) : String :=
+  match parseHex ours, parseHex data with
+  | some o, some d =>
+    match Keep.fast (fun b => b == o) d with
+    | .ok l => "ok " ++ showCnts l
+    | .bail => "bail" | .panic => "panic" | .hang => "hang"
+  | _, _ => "bad-op"
+
+def keepFullOp (ours data : String) : String :=
+  match parseHex ours, parseHex data with
+  | some o, some d =>
+    match Keep.fullDecodeFilter (fun _ _ => true) (fun b => b == o) d with
+    | some l => "ok " ++ showCnts l
+    | none => "err"
+  | _, _ => "bad-op"
+
 abbrev St := Option State
 
 def init : St := none
@@ -122,6 +175,8 @@ def step1 (st : St) (toks : List String) : St × String :=
       let s := applyRoot owner (if hasOpt then some 1 else none)
       (some s, "ok " ++ showStateNV s)
     | _, _ => (st, "bad-op")
+  | ["keep", o, d] => (st, keepOp o d)
+  | ["keepfull", o, d] => (st, keepFullOp o d)
   | "rec" :: a :: p :: rest => doRec true st a p rest
   | "recn" :: a :: p :: rest => doRec false st a p rest
   | _ => (st, "bad-op")
